@@ -181,7 +181,7 @@ func boundary(w *kit.Out) {
 		}
 		ls = append(ls, s.line())
 	}
-	ls = append(ls, qp("gno.land/", 1000), qp("g", 1000))
+	ls = append(ls, qp("gno.land/", 1000), qp("g", 1000), q(longPath(256)+"/gnomod.toml"), q(longPath(256)), q(longPath(257)))
 	emit("b/odd-paths", ls...)
 	// 8. path-normalisation variants of a deployed package
 	ls = []string{pkg(42, 0, a, "sl", 1).line()}
